@@ -165,6 +165,9 @@ def classify(log, n, targets):
     return {"call": call, "path": path_kind(path, targets), "window": win}
 
 
+LAST_W2_ROW = None
+
+
 def post_crash_window(job, disk):
     """Semantic window of the crash, read off the state it left behind (before any recovery):
        W1  the database exists but has no committed schema
@@ -196,6 +199,8 @@ def post_crash_window(job, disk):
     m_new = model_for(job, 1 if job["state"] == "built" else 0)
     memo = {}
     w2 = w3 = False
+    global LAST_W2_ROW
+    LAST_W2_ROW = None
     for t in job["project"]["targets"]:
         new = m_new.from_scratch(t, memo)
         if not isinstance(new, bytes):
@@ -213,6 +218,13 @@ def post_crash_window(job, disk):
                     ok = False
             if not ok:
                 w2 = True
+                # what the row of that target says: this is what the recovery run has to work from
+                if row is None or not row[1]:
+                    LAST_W2_ROW = "not-generated"
+                elif not row[2]:
+                    LAST_W2_ROW = "generated+no-stamp"
+                else:
+                    LAST_W2_ROW = "generated+old-stamp"
         else:
             if row is not None and row[3] and row[3] == hashlib.sha1(new).hexdigest():
                 w3 = True
@@ -244,6 +256,8 @@ def crash_job(job):
         info["scripts_before"] = len(hist.parse_trace(disk.take_trace())[0])
         cls = classify(klog, n, set(job["project"]["targets"]))
         cls["window"] = post_crash_window(job, disk)
+        if cls["window"] == "W2":
+            cls["row"] = LAST_W2_ROW
         info["class"] = cls
         problems = []
         symptom = None
@@ -259,6 +273,8 @@ def crash_job(job):
             order = {"none": 0, "W3": 1, "W1": 2, "W2": 3}
             if order.get(w2, 0) > order.get(cls["window"], 0):
                 cls["window"] = w2
+                if w2 == "W2":
+                    cls["row"] = LAST_W2_ROW
             info["double"] = True
         # --- recovery: simply run redo again ---
         rec = runner.run_cmd(disk, ["redo-ifchange"] + job["tops"], env_extra=env, timeout=40)
@@ -441,11 +457,32 @@ def run_check(tier, seed):
                 for _ in range(10):
                     jobs.append(dict(job, n=rng.randint(1, total), n2=rng.randint(1, max(2, total // 2)),
                                      victim=rng.choice(["self", "group"]), total=total))
-        for job, v, info in pool.imap_unordered(crash_job, jobs, chunksize=2):
+        w3_points = []
+        second_stage = False
+        import itertools
+        stream = pool.imap_unordered(crash_job, jobs, chunksize=2)
+        while True:
+            try:
+                job, v, info = next(stream)
+            except StopIteration:
+                if second_stage or not w3_points:
+                    break
+                # second stage -- targeted double crashes: wherever the first kill left a target whose NEW checksum is
+                # committed while its file is still the old one (window W3), the recovery run is killed too, before
+                # each of its state-changing calls (every 3rd in quick)
+                second_stage = True
+                step2 = 3 if tier == "quick" else 1
+                jobs2 = [dict(j, n2=n2, victim="group") for j in w3_points
+                         for n2 in range(1 + (seed % step2), j["total"] + 1, step2)]
+                stream = pool.imap_unordered(crash_job, jobs2, chunksize=2)
+                continue
             evals += 1
             if v == "inconclusive":
                 inconclusive += 1
                 continue
+            if not job.get("n2") and info.get("class", {}).get("window") == "W3" and job["victim"] == "group" \
+                    and len(w3_points) < (12 if tier == "quick" else 200):
+                w3_points.append(job)
             if info.get("killed"):
                 nontrivial.add(engine.case_hash({k: job.get(k) for k in ("project", "state", "log", "n", "victim", "n2")}))
             c = info.get("class", {})
@@ -454,6 +491,8 @@ def run_check(tier, seed):
             classes["state:" + job["state"]] += 1
             if info.get("double"):
                 classes["double-crash(recovery run killed too)"] += 1
+                if second_stage:
+                    classes["double-crash/first-kill-left-a-committed-checksum-without-its-file(W3)"] += 1
             if len(samples) < 3 and info.get("killed") and evals % 37 == 5:
                 samples.append({"state": job["state"], "n": job["n"], "of": job["total"], "victim": job["victim"],
                                 "class": c, "tops": job["tops"], "dofiles": job["project"]["dofiles"]})
